@@ -107,10 +107,15 @@ def check_ewald(case):
             if abs(qm + q) > 1e-9 * scale:
                 fails.append(("oddness", "merged-image L=%r direction %d separation %r: q(-s_d) = %r, q(s_d) = %r"
                               % (L, d, s, qm, q)))
-            # periodic in the box
+            # periodic in the box: the two representations of a separation on / next to a face agree.  (The truncated
+            # image sum is centred on the minimum-image cube -- the only place where JF evaluates it, see
+            # periodic_boundaries.separation_vector -- so a shift by L of an interior point, which lands up to L
+            # outside the cube, is not asserted: there the truncation error of the shipped cut-offs is ~1e-7.)
             for ax in range(3):
                 p = list(s)
                 p[ax] = p[ax] - L if p[ax] > 0 else p[ax] + L
+                if abs(p[ax]) > L / 2 * (1.0 + 1e-6):
+                    continue
                 qp = pot.derivative(vel, p, 1.0, 1.0)
                 if abs(qp - q) > 2e-8 * scale:
                     fails.append(("periodicity", "merged-image L=%r direction %d: q(%r) = %r but q(%r) = %r"
